@@ -36,15 +36,15 @@ PROPS = {
                      "out-degrees) x start x permutation table x message x mode x check length; a case is one encode "
                      "line; non-trivial = message value > 0 and the walk visits a branching vertex; distinct = hash "
                      "of the operation line"),
-    "C02": dict(level="proof", theorems=T("C02"), gens=["C02"],
+    "C02": dict(level="proof", theorems=T("C02", "C02_windows", "C02_generated_subgraph", "C02_whole", "C02_ctor_partial", "C02_ctor_counterexample"), gens=["C02"],
                 rule="filter grid (run x GC range x motifs, and user-defined table predicates) x k x threshold x start x "
                      "message x table x mode, plus the constructor grid and the threshold grid; non-trivial = a "
                      "non-empty strand was emitted / configuration accepted"),
-    "C03": dict(level="proof", theorems=T("C03", "C03_trimLoop", "C03_gfp", "C03_mono", "C03_pure"), gens=["C03"],
+    "C03": dict(level="proof", theorems=T("C03", "C03_trimLoop", "C03_gfp", "C03_t1", "C03_holds", "C03_mono", "C03_latter_map", "C03_goodFrom", "C03_pure"), gens=["C03"],
                 rule="vertex masks (density classes, structured cycles; thorough: a seeded quarter of all 65 536 order-2 "
                      "masks) x threshold 1..4 x dtype; non-trivial = mask neither empty nor full and at least one "
                      "vertex removed"),
-    "C04": dict(level="proof", theorems=T("C04"), gens=["C04"],
+    "C04": dict(level="proof", theorems=T("C04", "C04_terminates_normal", "C04_terminates_fast", "C04_tight_normal", "C04_length_branching", "C04_length_complete", "C04_tight_fast") + T("C03", "C03_goodFrom"), gens=["C04"],
                 rule="graphs returned by the real connect_coding_graph x retained starts x messages x modes, accessor "
                      "passed as a read-counting proxy; non-trivial = value > 0 and a branching vertex visited"),
     "C05": dict(level="proof", theorems=T("C05", "C05_encode_meets_spec", "C05_spec_unique", "C05_decode_value", "C05_fast_meets_spec", "C05_fast_decode_value") + T("C18", "C18_digit_is_rank", "C18_bijection"), gens=["C05"],
